@@ -115,11 +115,17 @@ func BuildArena(dst string) error {
 			os.Symlink("dstreal", "/w/dstlink")
 		}
 	}
+	near := func(p, s string) error {
+		if strings.HasPrefix(d, "/w/lone/") {
+			return nil // this destination is the only child of its parent, which is the only child of its own
+		}
+		return wr(p, s)
+	}
 	steps := []error{
 		mk("/w"), mk("/tmp"), mk("/cwd"), mk(d),
-		wr(d+"-evil/keep", "OUT-evil-keep"),
-		wr(d+"x", "OUT-dstx"),
-		wr(parent+"/victim", "OUT-victim"),
+		near(d+"-evil/keep", "OUT-evil-keep"),
+		near(d+"x", "OUT-dstx"),
+		near(parent+"/victim", "OUT-victim"),
 		wr("/w/victim", "OUT-w-victim"),
 		wr("/victim", "OUT-root-victim"),
 		wr("/etc/shadow", "OUT-shadow"),
